@@ -2,6 +2,32 @@
 import copy
 from units import engine as _e
 
+
+
+def _cond_wait(tr, n, obj, args, argnodes):
+    """condition_variable::wait(lock) / wait(lock, pred).  The predicate form is `while (!pred()) wait(lock);`: modelled for
+    partial correctness as one wait after which the predicate holds (the predicate must be a lambda with a single return)."""
+    lock = tr.expr(argnodes[0])
+    if len(argnodes) == 1:
+        return 'verif_cond_wait(%s, %s)' % (obj, lock)
+
+    def find(x, kind):
+        if isinstance(x, dict):
+            if x.get('kind') == kind:
+                return x
+            for c in x.get('inner', []):
+                r = find(c, kind)
+                if r is not None:
+                    return r
+        return None
+    lam = find(argnodes[1], 'LambdaExpr')
+    body = [c for c in (lam or {}).get('inner', []) if c.get('kind') == 'CompoundStmt']
+    if not body or len(body[-1].get('inner', [])) != 1 or body[-1]['inner'][0].get('kind') != 'ReturnStmt':
+        raise Exception('condition wait predicate is not a single-return lambda')
+    e = tr.expr(body[-1]['inner'][0]['inner'][0])
+    return '({ if (!(%s)) { verif_cond_wait(%s, %s); __CPROVER_assume(%s); } })' % (e, obj, lock, e)
+
+
 _b = copy.deepcopy(_e.UNIT)
 S = _e.S
 NT, NR = 4, 4            # at most 4 tasks and 4 rules in the two hash maps (each element a separate object; the loops are closed by invariants)
@@ -22,7 +48,7 @@ UNIT['calls'] = dict(_b['calls'], **{
     'm:@vec_TaskInfoPtr::empty': 'vec_TaskInfoPtr_empty', 'm:@vec_TaskInfoPtr::size': 'vec_TaskInfoPtr_size', 'm:@vec_TaskInfoPtr::clear': 'vec_TaskInfoPtr_clear',
     'm:@vec_RuleScanRequest::clear': 'vec_RuleScanRequest_clear', 'm:@vec_TaskInputRequest::clear': 'vec_TaskInputRequest_clear',
     'm:@vec_taskpair::clear': 'vec_taskpair_clear_locked',
-    'm:@verif_condvar::wait': 'verif_cond_wait',
+    'm:@verif_condvar::wait': _cond_wait,
 })
 UNIT['need_fields'] = {'BuildEngineImpl': ['ruleInfosToScan', 'inputRequests', 'finishedInputRequests', 'readyTaskInfos', 'finishedTaskInfos', 'taskInfos', 'ruleInfos',
                                            'numOutstandingUnfinishedTasks', 'finishedTaskInfosMutex', 'taskInfosMutex', 'inputRequestsMutex']}
